@@ -178,7 +178,7 @@ def grp_cases(rng, tier, mid=4):
             for i in range(len(pool_g) - 1, 0, -1):
                 j = rng.below(i + 1)
                 pool_g[i], pool_g[j] = pool_g[j], pool_g[i]
-            sel = [(pool_g.pop() + n) if rng.chance(1, 2) else n for n in sel]
+            sel = [(pool_g.pop() + n) if (pool_g and rng.chance(1, 2)) else n for n in sel]
         cases.append("%d %d | %s" % (mid, nm, " ; ".join(enc_name(n) for n in sel)))
     return cases, {("group_definitions" if mid == 4 else "impl_group_tables"): len(cases), "max_optional": maxopt}
 
